@@ -274,12 +274,19 @@ def coq_check(prop, extra_targets=()):
 
 
 # --------------------------------------------------------------------------- OCaml driver
+def ocaml_sources():
+    d = os.path.join(VERIF, "ocaml")
+    cmds = sorted(f for f in os.listdir(d) if f.startswith("cmd_") and f.endswith(".ml"))
+    return ["util.ml"] + cmds + ["driver.ml"]
+
+
 def build_driver():
-    """Compile the extracted model + driver.ml (only when one of them changed)."""
+    """Compile the extracted model + ocaml/{util,cmd_*,driver}.ml (only when one of them changed)."""
     with Lock():
         d = os.path.join(WORK, "ocaml")
         os.makedirs(d, exist_ok=True)
-        srcs = [os.path.join(COQ, "model.ml"), os.path.join(COQ, "model.mli"), os.path.join(VERIF, "ocaml/driver.ml")]
+        names = ocaml_sources()
+        srcs = [os.path.join(COQ, "model.ml"), os.path.join(COQ, "model.mli")] + [os.path.join(VERIF, "ocaml", n) for n in names]
         for s in srcs:
             if not os.path.exists(s):
                 raise RuntimeError("missing %s (extraction did not run)" % s)
@@ -290,8 +297,9 @@ def build_driver():
             return exe
         for s in srcs:
             shutil.copy(s, d)
-        sh("ocamlfind ocamlopt -O2 -w -a -package str model.mli model.ml driver.ml -o driver 2>&1 || "
-           "ocamlfind ocamlopt -w -a model.mli model.ml driver.ml -o driver", cwd=d, timeout=600)
+        files = "model.mli model.ml " + " ".join(names)
+        sh("ocamlfind ocamlopt -O2 -w -a -package str %s -o driver 2>&1 || "
+           "ocamlfind ocamlopt -w -a %s -o driver" % (files, files), cwd=d, timeout=600)
         open(stamp, "w").write(h)
         return exe
 
